@@ -5,6 +5,8 @@ mod formatter;
 pub mod ir;
 mod printer;
 mod test;
+#[cfg(emmyluals_emmylua_analyzer_rust_verif)]
+pub mod verif;
 mod workspace;
 
 pub use config::{
